@@ -24,6 +24,10 @@ type Outcome struct {
 	Clause string `json:"clause,omitempty"`
 	// Sig describes the trigger class of the case (part of a finding's signature).
 	Sig string `json:"sig,omitempty"`
+	// Undecided is set when the harness could not judge the case (for instance a wait of the
+	// harness itself timed out on something the property does not speak about). It stops the
+	// run and makes the driver exit 2, never a VIOLATION.
+	Undecided string `json:"undecided,omitempty"`
 	// Timing marks a violation of a wall-clock bound (rule T: must reproduce alone).
 	Timing bool `json:"timing,omitempty"`
 	// Invalid marks a case that is not well-formed (only possible after driver-side shrinking).
@@ -36,6 +40,11 @@ type Outcome struct {
 	Counters map[string]int `json:"counters,omitempty"`
 	// History is a human-readable trace of what was observed (kept for failures only).
 	History []string `json:"history,omitempty"`
+}
+
+// Undecided builds an outcome the harness could not judge.
+func Undecided(format string, args ...interface{}) Outcome {
+	return Outcome{Undecided: fmt.Sprintf(format, args...), Clause: "undecided"}
 }
 
 // Fail builds a violating outcome.
@@ -170,7 +179,7 @@ func (c *collector) end(raw []byte, out Outcome) {
 		}
 		c.last = cp
 	}
-	if out.Violation != "" {
+	if out.Violation != "" || out.Undecided != "" {
 		c.failures = append(c.failures, Failure{Case: append(json.RawMessage(nil), raw...), Outcome: out})
 		if len(c.failures) > 40 {
 			// keep the first few and the most recent ones
@@ -313,6 +322,9 @@ func Check[C any](t *testing.T, p Property[C]) {
 			}
 			if out.Violation != "" {
 				rt.Fatalf("[%s] %s", out.Clause, out.Violation)
+			}
+			if out.Undecided != "" {
+				rt.Fatalf("[undecided] %s", out.Undecided)
 			}
 		})
 	}
